@@ -4,11 +4,11 @@ CONSTANTS
   HostileNames <- MC_NoHostile
   MaxOps = 2
   MaxIno = 8
-  Cfg <- MC_Cfg_plain
+  Cfg <- MC_Cfg_noopen
   TaintOn = TRUE
   Mode = "c05"
   InitS <- MC_S_plain
-  ScenCfg <- MC_Scen_plain
+  ScenCfg <- MC_Scen_noopen
   ScenTree <- MC_Tree_plain
 VIEW View
 INVARIANTS TreeOK MirrorOK NameGateOK Report
